@@ -212,7 +212,7 @@ class BufScript:
         return ops
 
     def outer_script(self, ncalls=6, p=0.4):
-        ops = []
+        ops = [("-", 0)] if self.rng.random() < 0.6 else self.bufops(1) + [("-", 0)]   # before the first call
         for _ in range(ncalls):
             if self.rng.random() < p:
                 ops += self.bufops(self.rng.randint(1, 2))
@@ -237,7 +237,7 @@ class BufScript:
 
     def after_end(self, n=3):
         """what the caller does after yylex() returned 0"""
-        ops = []
+        ops = [("-", 0)]
         for _ in range(n):
             r = self.rng.random()
             if r < 0.3: ops += [("c", 0), ("-", 0)]
